@@ -48,6 +48,38 @@ pub(crate) fn policy_w(p: &LFUPolicy<HS>) -> usize {
     p.inner.lock().admit.w
 }
 
+/// Recorder stand-ins for `LFUPolicy::cost` / `LFUPolicy::remove` (Kani only), used by the sweep
+/// harness: which keys does the sweep un-charge, and which cost does it report?
+#[cfg(kani)]
+pub(crate) mod polrec {
+    use super::*;
+    pub static mut COST_ANSWER: i64 = 0;
+    pub static mut COST_CALLS: usize = 0;
+    pub static mut REMOVED: [u64; 2] = [0; 2];
+    pub static mut REMOVES: usize = 0;
+    pub fn reset(cost_answer: i64) {
+        unsafe {
+            COST_ANSWER = cost_answer;
+            COST_CALLS = 0;
+            REMOVES = 0;
+        }
+    }
+    pub fn cost<S: BuildHasher + Clone + 'static>(_p: &LFUPolicy<S>, _k: &u64) -> i64 {
+        unsafe {
+            COST_CALLS += 1;
+            COST_ANSWER
+        }
+    }
+    pub fn remove<S: BuildHasher + Clone + 'static>(_p: &LFUPolicy<S>, k: &u64) {
+        unsafe {
+            if REMOVES < 2 {
+                REMOVED[REMOVES] = *k;
+            }
+            REMOVES += 1;
+        }
+    }
+}
+
 /// number of eviction rounds of the contract stub: 1 by default, 2 with `--cfg verif_victims2`
 #[cfg(kani)]
 pub(crate) fn contract_max_victims() -> usize {
